@@ -277,8 +277,9 @@ where
                     }
                     v[start..end].reverse();
                 } else {
+                    // a non-descending run continues while the next element is NOT smaller
                     while start > 0
-                        && forward_err!(is_less(
+                        && !forward_err!(is_less(
                             v.get_unchecked(start),
                             v.get_unchecked(start - 1)
                         )?)
